@@ -350,7 +350,7 @@ def run_lookup_variants(r, res):
             # the arguments that signature takes
             sig, body = {"a.html": ("p, q='Q0'", "${p}|${q}"), "a-b.html": ("p, q='Q1'", "${p}|${q}"), "a_b.html": ("q='Q2', r='R2'", "${q}|${r}"),
                          "a.b.html": ("**kw", "${sorted(kw)}")}[nm]
-            texts[nm] = "FILE:%s|${x}|" % nm + gen_setorder(r) + '<%%def name="it(%s)">IT@%s(%s)</%%def>' % (sig, nm, body)
+            texts[nm] = "FILE:%s|${x}|" % nm + gen_setorder(r) + '<%%def name="it(%s)">IT@%s(%s)</%%def>' % (sig, nm, body) + "|URI=${local.uri},${self.uri}"
             with open(os.path.join(root, nm), "w") as f:
                 f.write(texts[nm])
         called = []
@@ -364,12 +364,14 @@ def run_lookup_variants(r, res):
             "module_directory": L(directories=[root], module_directory=os.path.join(d, "m1")),
             "modulename_callable": L(directories=[root], module_directory=os.path.join(d, "m2"), modulename_callable=mcall),
         }
-        ref = _st["Template"](texts["a.html"]).render_unicode(**CTX)
         for vname, lk in variants.items():
             for uri in ("/a.html", "a.html", "//a.html", "sub/../a.html", "/sub/../a.html"):
                 res.evaluations += 1
                 res.count("lookup_variants")
                 what = "lookup %s get_template(%r)" % (vname, uri)
+                # the same text compiled from a string under the same URI: also what it says about its own URI
+                # (several spellings share one module file; what a spelling renders must not depend on which came first)
+                ref = _st["Template"](texts["a.html"], uri=uri).render_unicode(**CTX)
                 try:
                     t = lk.get_template(uri)
                     out = t.render_unicode(**CTX)
@@ -401,7 +403,7 @@ def run_lookup_variants(r, res):
                     else:
                         # the whole output and the def list, against the same text compiled from a string: the
                         # body AND the defs it calls are this template's own
-                        ref_t = _st["Template"](texts[nm])
+                        ref_t = _st["Template"](texts[nm], uri="/" + nm)
                         exp_out = ref_t.render_unicode(**CTX)
                         if out != exp_out:
                             res.violate("lookup-variant-output", "lookup %s: /%s loaded beside its siblings renders %r, its text alone renders %r" % (vname, nm, out, exp_out))
